@@ -210,6 +210,19 @@ fn main() {
         "libref" => {
             std::process::exit(props::c20::libref_main(&args[2..]));
         }
+        "script-case" => {
+            // one script of a fixed-case family, run in a process of its own (so that a run that kills the
+            // process is the verdict of that case): the script comes on stdin, the answer goes out as JSON
+            let mut text = String::new();
+            use std::io::Read;
+            std::io::stdin().read_to_string(&mut text).expect("read script");
+            engine::install_quiet_panic_hook();
+            let out = match util::run_sdk_script(&text) {
+                Ok(vars) => serde_json::json!({"ok": vars}),
+                Err(e) => serde_json::json!({"err": e}),
+            };
+            println!("{}", out);
+        }
         "script" => {
             // debugging aid: run a script file with the SDK, dump variables and abstract state
             let text = std::fs::read_to_string(&args[2]).expect("read script");
